@@ -21,11 +21,35 @@ def scale_history(rnd, label):
     return "\n".join(L) + "\n"
 
 
+def local_rounds(rnd, label):
+    """many small refinement rounds on shallow local polynomial / wavelet grids, mostly with level limits in effect (stored at
+    make time, passed again, or unrestricted entries only) and with the criteria mixed: hierarchies grow one child at a time, so a
+    flagged point may have one child loaded and its sibling not, parents missing, limits reached in one direction only"""
+    fam = rnd.choice(["wavelet", "wavelet", "localp", "localp"])
+    d = rnd.choice([1, 1, 2, 2, 3])
+    depth = rnd.choice([0, 0, 1])
+    lim = rnd.choice([[], [rnd.choice([-1, 2, 3, 4]) for _ in range(d)], [rnd.choice([-1, 3, 5]) for _ in range(d)], [-1] * d])
+    if fam == "wavelet":
+        L = ["SCEN " + label, "make wavelet %d %d %d %d %s" % (d, rnd.choice([1, 2]), depth, rnd.choice([1, 1, 3]) if depth == 0 or d < 3 else 1, gl.ivec(lim))]
+    else:
+        L = ["SCEN " + label, "make localp %d %d %d %d %s %s" % (d, rnd.choice([1, 2]), depth, rnd.choice([1, 2, 3, 0]), rnd.choice(gl.LOCAL_RULES), gl.ivec(lim))]
+    L.append("load 1")
+    ep = 1
+    for _ in range(rnd.randint(3, 6)):
+        crit = rnd.choice(["classic", "classic", "classic", "parents", "fds", "direction", "stable"])
+        ll = [] if rnd.random() < 0.7 else [rnd.choice([-1, 2, 3, 4]) for _ in range(d)]
+        L.append("surpl %d -1 %s %s 0" % (rnd.choice([1, 1, 2, 2, 3, 5]), crit, gl.ivec(ll)))
+        ep += 1
+        L.append("load %d" % ep)
+    return "\n".join(L) + "\n"
+
+
 def run(ctx):
     rnd = random.Random(ctx.seed)
     n = 360 if ctx.quick else 6000
     scens = [gl.history(rnd, "h%d" % i, steps=rnd.randint(4, 9), with_construct=False) for i in range(n)]
     scens += [scale_history(rnd, "s%d" % i) for i in range(n // 3)]
+    scens += [local_rounds(rnd, "l%d" % i) for i in range(n // 3)]
     gen = gl.mc_and_scripts(ctx, ['seq', 'localp1', 'localp2', 'wavelet', 'globalleja', 'fourier'], rnd, 150 if ctx.quick else 3000, maxlen=None if ctx.quick else 5, genlen=3 if ctx.quick else 4, mc=True)
     gl.run_grid(ctx, gen + [("hist", scens), ("mixed", gl.mixed_family(rnd, max(40, n // 5)))], gl.OBS_NODAL, "C07")
     ctx.assume("flagged sets are derived by the spec from logged normalised coefficient ratios (observer); tolerances are placed between distinct ratios")
